@@ -101,14 +101,25 @@ pub fn dym_pairs() {
     let want = spec_suggestion(r.len(), &[c.as_str()], &[dl_spec(&r, &c)]);
     oblige!(got == want, "C18:suggests_only_a_closest_accepted_name_within_the_budget");
 }
+/// every (received, single candidate) pair over an alphabet of a 1-byte, a 2-byte and a 3-byte character, lengths 0..=5 x 0..=4:
+/// byte length (which fixes the budget) and character count (which the distance counts) disagree in every way they can
+pub fn dym_pairs_multibyte() {
+    let alpha = ['a', '\u{e9}', '\u{20ac}'];
+    let r = word_over(&alpha, nd::below(6));
+    let c = word_over(&alpha, nd::below(5));
+    let got = did_you_mean(&r, &[c.as_str()]);
+    let want = spec_suggestion(r.len(), &[c.as_str()], &[dl_spec(&r, &c)]);
+    oblige!(got == want, "C18:suggests_only_a_closest_accepted_name_within_the_budget");
+}
 /// candidate lists with ties, exact matches and the empty list; received around every budget threshold; multi-byte input
 pub fn dym_lists() {
-    const POOL: [&str; 10] = ["", "abcd", "abdc", "abce", "abcdefgh", "abcdefgx", "\u{e9}t\u{e9}s", "abcdefghijklm", "pr\u{e9}nom", "\u{e9}\u{e9}\u{e9}e"];
+    const POOL: [&str; 12] = ["", "abcd", "abdc", "abce", "abcdefgh", "abcdefgx", "\u{e9}t\u{e9}s", "abcdefghijklm", "pr\u{e9}nom", "\u{e9}\u{e9}\u{e9}e", "sort", "filter"];
     // multi-byte received strings whose byte length and character count fall into different budget buckets
-    const RECV: [&str; 15] = ["", "abc", "abcd", "abcx", "abcdefg", "abcdefgh", "abcdxfgy", "abcdefghijkl", "abcdefghijklm", "abcdefghijklmnopq", "abcdefghijklmnopqrstuvwx", "\u{e9}t\u{e9}", "pr\u{e8}noms", "\u{e9}\u{e9}\u{e9}\u{e9}", "\u{e9}\u{e9}"];
-    let r = RECV[nd::below(15) as usize];
+    // (the last two: the byte lengths of received and candidate differ by more than the budget although the character distance is within it)
+    const RECV: [&str; 17] = ["", "abc", "abcd", "abcx", "abcdefg", "abcdefgh", "abcdxfgy", "abcdefghijkl", "abcdefghijklm", "abcdefghijklmnopq", "abcdefghijklmnopqrstuvwx", "\u{e9}t\u{e9}", "pr\u{e8}noms", "\u{e9}\u{e9}\u{e9}\u{e9}", "\u{e9}\u{e9}", "sor\u{20ac}", "fil\u{20ac}\u{20ac}r"];
+    let r = RECV[nd::below(17) as usize];
     let n = nd::below(4);
-    let mut acc: Vec<&str> = Vec::new(); let mut i = 0; while i < n { acc.push(POOL[nd::below(10) as usize]); i += 1; }
+    let mut acc: Vec<&str> = Vec::new(); let mut i = 0; while i < n { acc.push(POOL[nd::below(12) as usize]); i += 1; }
     let dist: Vec<usize> = acc.iter().map(|c| dl_spec(r, c)).collect();
     let got = did_you_mean(r, &acc);
     oblige!(got == spec_suggestion(r.len(), &acc, &dist), "C18:suggests_only_a_closest_accepted_name_within_the_budget");
@@ -144,7 +155,7 @@ pub fn dym_symbolic_distances() {
 }
 
 pub fn registry() -> Vec<(&'static str, crate::Body)> {
-    vec![("kinds_sequences", kinds_sequences as crate::Body), ("kinds_permutations", kinds_permutations), ("dym_pairs", dym_pairs), ("dym_lists", dym_lists)]
+    vec![("kinds_sequences", kinds_sequences as crate::Body), ("kinds_permutations", kinds_permutations), ("dym_pairs", dym_pairs), ("dym_lists", dym_lists), ("dym_pairs_multibyte", dym_pairs_multibyte)]
 }
 
 #[cfg(kani)]
